@@ -13,6 +13,11 @@
 (* VerifCursor = position+1), Line(), Column(), then the three peeks, then *)
 (* cursor/Line/Column again (peeks must not move anything).                *)
 (* A failing line is printed and the run continues (see TraceBase idiom).  *)
+(* The same events are also recorded INSIDE the library (guarded hook      *)
+(* StringScanner.verifEvent, one line per state-changing call at its       *)
+(* return) while the repository's own test-suite and the tokenizers of     *)
+(* another check's driver run: bin/check groups them by scanner instance   *)
+(* into segments of this format (without "ret").                           *)
 (***************************************************************************)
 EXTENDS Scanner, Json, TLC, Held
 
@@ -39,7 +44,9 @@ Apply(e) ==
     \* the two scanners change places: each is exactly where it was left, whatever was done with the other one meanwhile
     [] e.op = "switch"     -> content' = other[1] /\ k' = other[2] /\ other' = <<content, k>>
 
-RetFails(e) == F(e.op = "read" => e.ret = ReadRet, "read returned the wrong character")
+\* (calls traced inside the library - the repository's own tests and the tokenizers as clients, hook verifEvent - carry no
+\* return value: they are judged by what the scanner reports after them)
+RetFails(e) == F(e.op = "read" /\ "ret" \in DOMAIN e => e.ret = ReadRet, "read returned the wrong character")
 
 Init == l = 1 /\ content = <<>> /\ k = 0 /\ other = <<<<>>, 0>>
 Next ==
